@@ -50,7 +50,7 @@ func init() {
 	core.Register(&core.Monitor{
 		ID:            "C23",
 		Race:          true,
-		Rule:          "connections from the PRNG, each with 1..3 consecutive requests; a request = API {GetBlock, GetBlockRange} x server batch shape {no-blocks, empty, matching, other, multi(2..5 blocks, the requested one first / somewhere / absent)} x blocks drawn from the corpus (every era; the 648 kB EBB in one dedicated case per run) x requested point (hash of the target block, PRNG slot) x callback kind {decoded, raw} x server write style {one write, one segment per message with yields, small segments} x perturbation level {0,1,2}; the connection is abandoned after the first request that fails or hangs. A request is non-trivial when the client sent RequestRange, the server wrote its batch and the outcome was judged; distinct by (API, shape, blocks, position in the connection, write style, perturbation)",
+		Rule:          "connections from the PRNG, each with 1..3 consecutive requests; a request = API {GetBlock, GetBlockRange} x server batch shape {no-blocks, empty, matching, other, multi(2..5 blocks, the requested one first / somewhere / absent)} (two thirds of the GetBlock requests with the shapes empty and multi are re-drawn from the other shapes, because each of them costs a whole quiescence window) x blocks drawn from the corpus (every era; the 648 kB EBB in one dedicated case per run) x requested point (hash of the target block, PRNG slot) x callback kind {decoded, raw} x server write style {one write, one segment per message with yields, small segments} x perturbation level {0,1,2}; the connection is abandoned after the first request that fails or hangs. A request is non-trivial when the client sent RequestRange, the server wrote its batch and the outcome was judged; distinct by (API, shape, blocks, position in the connection, write style, perturbation)",
 		MinNontrivial: 120,
 		RaceAnchors:   []string{"blockfetch.(*Client).GetBlock", "blockfetch.(*Client).handleBlock", "blockfetch.(*Client).handleBatchDone", "blockfetch.(*Client).handleStartBatch", "blockfetch.(*Client).handleNoBlocks"},
 		Assumptions: []string{
@@ -105,6 +105,10 @@ func genCase(i int, r *core.Rand, blocks []*rig.Block, small []int) *caseSpec {
 		rq := request{Single: r.Chance(3, 5), Shape: i % 5, Target: small[r.Intn(len(small))]}
 		if k > 0 {
 			rq.Shape = r.Intn(5)
+		}
+		if rq.Single && (rq.Shape == 1 || rq.Shape == 4) && !r.Chance(1, 3) {
+			// a single request that never returns costs a whole quiescence window: keep a third of them
+			rq.Shape = []int{0, 2, 2, 3}[r.Intn(4)]
 		}
 		other := func() int {
 			for {
@@ -331,22 +335,6 @@ func describe(rq *request, blocks []*rig.Block) map[string]any {
 }
 
 func runCase(c *core.Ctx, cs *caseSpec, blocks []*rig.Block, abandoned *atomic.Int64) {
-	t0 := time.Now()
-	defer func() {
-		d := time.Since(t0)
-		b := "lt_2s"
-		switch {
-		case d > 20*time.Second:
-			b = "gt_20s"
-		case d > 10*time.Second:
-			b = "10_20s"
-		case d > 7*time.Second:
-			b = "7_10s"
-		case d > 2*time.Second:
-			b = "2_7s"
-		}
-		c.Count("connection_wall_"+b, 1)
-	}()
 	st := &connState{}
 	opts := []blockfetch.BlockFetchOptionFunc{
 		blockfetch.WithBatchStartTimeout(cs.Timeout),
@@ -467,12 +455,10 @@ func runCase(c *core.Ctx, cs *caseSpec, blocks []*rig.Block, abandoned *atomic.I
 				continue
 			}
 			nreq, nwr := srv.snapshot()
-			tq := time.Now()
 			allParked, dump, busy := rig.Quiet(l.CtorGo, lastChange)
 			c.Count("quiet_checks", 1)
-			c.Count("quiet_checks_ms", int(time.Since(tq).Milliseconds()))
 			if f := os.Getenv("VERIF_C23_DUMP"); f != "" {
-				os.WriteFile(fmt.Sprintf("%s.%d", f, cs.Idx), []byte(dump), 0o644)
+				os.WriteFile(fmt.Sprintf("%s.%d", f, cs.Idx), []byte(dump.Text), 0o644)
 			}
 			if p := progress(); p != last {
 				last, lastChange = p, time.Now()
@@ -481,26 +467,19 @@ func runCase(c *core.Ctx, cs *caseSpec, blocks []*rig.Block, abandoned *atomic.I
 			switch {
 			case nreq <= k:
 				inconclusive = "the RequestRange never reached the server"
-				if blk := rig.StackOf(dump, goid.Load()); !returned && blk != "" && rig.Parked(blk) && strings.Contains(blk, "blockfetch.(*Client)") && allParked {
-					hang, hangBlk, inconclusive = "request-not-sent", blk, ""
+				if g, ok := dump.Find(goid.Load()); !returned && ok && g.Parked && strings.Contains(g.Block, "blockfetch.(*Client)") && allParked {
+					hang, hangBlk, inconclusive = "request-not-sent", g.Block, ""
 				}
 			case nwr <= k:
 				inconclusive = "the scripted server has not finished writing"
 			case !allParked:
 				// frozen counters, but a goroutine of the connection is running (decoding): keep waiting
 				lastBusy = busy
-				if os.Getenv("VERIF_C23_DEBUG") != "" {
-					l := strings.SplitN(busy, "\n", 3)
-					if len(l) > 1 {
-						c.Count("dbg_busy "+strings.TrimSpace(l[0][strings.IndexByte(l[0], '['):])+" "+strings.SplitN(l[1], "(", 2)[0], 1)
-					}
-				}
 				lastChange = time.Now()
 				continue
 			case !returned:
-				blk := rig.StackOf(dump, goid.Load())
-				if blk != "" && rig.Parked(blk) && strings.Contains(blk, "blockfetch.(*Client)") {
-					hang, hangBlk = "call", blk
+				if g, ok := dump.Find(goid.Load()); ok && g.Parked && strings.Contains(g.Block, "blockfetch.(*Client)") {
+					hang, hangBlk = "call", g.Block
 				} else {
 					inconclusive = "the caller is not parked inside the block-fetch client"
 				}
@@ -508,9 +487,9 @@ func runCase(c *core.Ctx, cs *caseSpec, blocks []*rig.Block, abandoned *atomic.I
 				// GetBlockRange returned nil, the batch was written and consumed, no BatchDoneFunc
 				hang = "completion"
 				var where []string
-				for _, b := range rig.CreatedIn(dump, l.CtorGo) {
-					if strings.Contains(b, "blockfetch") || strings.Contains(b, "muxer.(*Muxer).readLoop") {
-						where = append(where, rig.Trim(b, 7))
+				for _, g := range dump.Descendants(l.CtorGo) {
+					if strings.Contains(g.Block, "blockfetch") || strings.Contains(g.Block, "muxer.(*Muxer).readLoop") {
+						where = append(where, rig.Trim(g.Block, 7))
 					}
 				}
 				hangBlk = strings.Join(where, "\n--\n")
@@ -565,6 +544,27 @@ func runCase(c *core.Ctx, cs *caseSpec, blocks []*rig.Block, abandoned *atomic.I
 			c.Violation(key, fmt.Sprintf("%s against the server shape '%s' %s: all counters frozen for %v, the batch fully written, every goroutine of the connection parked", rq.api(), shape, what, quiescence), w)
 			c.Distinct(rq.api(), shape, fmt.Sprint(rq.Served), k, cs.Style, cs.Perturb)
 			break
+		}
+		if cs.Idx%29 == 3 && len(blocks[rq.Target].Cbor) < 4000 {
+			sm := describe(rq, blocks)
+			sm["request_on_wire"] = sreq.raw
+			sm["returned"] = returned
+			if res.err != nil {
+				sm["error"] = res.err.Error()
+			}
+			if res.blk != nil {
+				sm["returned_hash"] = res.blk.Hash().String()
+			}
+			var cbs []string
+			for _, d := range got {
+				if d.Done {
+					cbs = append(cbs, "BatchDone")
+				} else {
+					cbs = append(cbs, fmt.Sprintf("Block(type %d, hash %x)", d.Type, d.Hash[:6]))
+				}
+			}
+			sm["callbacks"] = cbs
+			c.Sample(sm)
 		}
 		stop := false
 		if rq.Single {
